@@ -3,7 +3,7 @@
 WT=/tmp/wt/rerun
 [ -d $WT ] || git -C /repo worktree add -q --detach $WT HEAD
 git -C $WT checkout -q --detach $(git -C /repo rev-parse HEAD) 2>/dev/null
-NAMES=${@:-$(ls /verif/seeded | grep -v -e ANNOT -e _benign)}
+NAMES=${@:-$(ls /verif/seeded | grep -v -e ANNOT -e _benign -e _legit)}
 for n in $NAMES; do
   D=/verif/seeded/$n
   [ -f $D/patch.diff ] || continue
